@@ -163,6 +163,14 @@ def check(config, events, live=None, nticks=None, identity=True):
                         P = "C06"  # "while a chain is suspended ... its detectors keep running each tick"
                     bad(P, "detector-once", "", "tick %d ruleset %s cg %s: detectors run %s, configured %s" % (ti, r.name, cg, got, sorted(r.det_ids)), st)
                     continue
+                if cg is not None and not identity:
+                    # which plugin objects make up this instance right now (needed for the per-instance prerun count even
+                    # where the identity clauses themselves are not judged)
+                    cur = {e["id"]: e["inst"] for e in mine}
+                    if st.insts is None:
+                        st.insts = dict(cur)
+                    else:
+                        st.insts.update(cur)
                 # ---- instance identity (C11)
                 if cg is not None and identity:
                     insts = {e["id"]: e["inst"] for e in mine}
@@ -314,18 +322,25 @@ def check(config, events, live=None, nticks=None, identity=True):
                 got = sorted(e["id"] for e in rpre)
                 want = sorted(r.det_ids + r.act_ids)
                 if got != want:
-                    bad("C02", "prerun-once", "", "tick %d ruleset %s: preruns %s, expected %s" % (ti, r.name, got, want))
+                    st0 = states.get((ri, None))
+                    tnow = rpre[0]["t"] if rpre else None
+                    paused = st0 is not None and st0.pause_set and tnow is not None and tnow < st0.pause_until
+                    # "meanwhile the ruleset's detectors and preruns keep executing every tick" is C05's own clause
+                    bad("C05" if paused else "C02", "prerun-once", "in-pause" if paused else "", "tick %d ruleset %s: preruns %s, expected %s" % (ti, r.name, got, want))
             else:
                 for cg in keys:
                     st = states.get((ri, cg))
                     if st is None or st.dead or st.insts is None:
                         continue
                     st.seen_ticks += 1
-                    if st.seen_ticks < 2:
-                        continue  # creation tick: prerun order relative to creation is not specified
                     mine = set(st.insts.values())
                     got = sorted(e["id"] for e in preruns if e["inst"] in mine)
                     want = sorted(k2 for k2 in st.insts)
                     if got != want:
-                        bad("C11", "prerun-per-instance", "", "tick %d ruleset %s cg %s: instance preruns %s, expected %s" % (ti, r.name, cg, got, want), st)
+                        # (on its creation tick an instance is prerun when it is created, i.e. after the tick's prerun phase: the
+                        # position is not specified, the count is - every plugin exactly once per tick)
+                        tnow = next((e["t"] for e in preruns if e["inst"] in mine), None)
+                        paused = st.pause_set and tnow is not None and tnow < st.pause_until
+                        bad("C05" if paused else "C11", "prerun-per-instance", "creation-tick" if st.seen_ticks < 2 else ("in-pause" if paused else ""),
+                            "tick %d ruleset %s cg %s: instance preruns %s, expected %s" % (ti, r.name, cg, got, want), st)
     return V, stats
